@@ -129,7 +129,8 @@ func specDepth(spaces int, row string) int {
 //@ func markdown.Parser.Parse
 //@   requires st: parserOK(p)
 //@   use lemma lemmaIndentProps
-//@   modifies p.isSharpRoot, p.spaces, p.sep
+//@   modifies p.isSharpRoot, p.spaces, p.sep, p.mu.wheld
+//@   ensures unlocked [C12]: !p.mu.wheld || p.mu.wheld == old(p.mu.wheld)
 //@   ensures st': parserOK(p)
 //@   ensures class [C02,C12]: result1 == nil || result1 == ErrBlankLine || result1 == ErrEmptyText || result1 == ErrIncorrectFormat
 //@   ensures res [C12]: (result1 == nil) == (result0 != nil)
